@@ -229,6 +229,50 @@ def ask_statement_nodes(ctx, rng, src, tree):
         ctx.count('node_level_questions')
         if not found:
             ctx.violation('C11|no-match-for-derived-pattern|root=Expr-node|steps=verbatim|node-level', case, 'the statement node does not contain its own call')
+    # ---- the same kind of question about a node that an EARLIER match handed out through a placeholder: what that match bound its
+    # names to is that match's business, not the node's
+    try:
+        earlier = find('_x_ = __e__', src)
+        touched = [m['__e__'] for m in earlier]
+    except Exception:
+        earlier, touched = [], []
+    if earlier:
+        assigns = [n for n in ast.walk(tree) if isinstance(n, ast.Assign) and len(n.targets) == 1 and isinstance(n.targets[0], ast.Name)]
+        rng.shuffle(assigns)
+        for stmt in assigns[:3]:
+            names = sorted({x.id for x in ast.walk(stmt.value) if isinstance(x, ast.Name) and x.id != stmt.targets[0].id and not x.id.startswith('_')}
+                           - {x.func.id for x in ast.walk(stmt.value) if isinstance(x, ast.Call) and isinstance(x.func, ast.Name)})
+            if not names:
+                continue
+            target = rng.choice(names)
+            value = cc.clone(stmt.value)
+            for x in ast.walk(value):
+                if isinstance(x, ast.Name) and x.id == target:
+                    x.id = '_x_'
+            try:
+                pattern = ast.unparse(value)
+                ast.parse(pattern)
+            except Exception:
+                continue
+            node = None
+            for cand in root.find_all('Assign'):
+                if getattr(cand, 'lineno', None) == stmt.lineno and getattr(cand, 'col_offset', None) == stmt.col_offset:
+                    node = cand.value
+                    break
+            if node is None:
+                continue
+            case = {'src': src[:3500], 'pattern': pattern, 'origin': 'node-level-after-an-earlier-match', 'steps': ['var'], 'presented': cc.PRESENTED['how'],
+                    'node': [stmt.lineno, stmt.col_offset], 'var_bindings': {'_x_': target}}
+            try:
+                found = node.find_matches(pattern)
+            except Exception as e:
+                ctx.violation('C11|find_matches-raised|%s|%s|node-level' % (type(e).__name__, site_of(e)), case, traceback.format_exc()[-400:])
+                continue
+            asked += 1
+            ctx.count('node_level_questions_after_an_earlier_match')
+            if not found:
+                ctx.violation('C11|no-match-for-derived-pattern|root=expression-node|steps=var|after-an-earlier-match-handed-the-node-out', case,
+                              'the value of the assignment on line %d does not match itself with %s written as _x_ (an earlier match of \'_x_ = __e__\' had bound _x_ to the target)' % (stmt.lineno, target))
     return asked
 
 
